@@ -121,7 +121,7 @@ def gen_spec(seed, profile="core", variant=None, templates=None):
     rng = random.Random(seed)
     variant = variant or rng.choice(("plain", "plain", "congested", "starved", "finite", "finite"))
     congested = variant == "congested"
-    template = rng.choice([t for t in (templates or ()) if t != "twin"] or ("line", "line", "line", "diamond", "pack", "packunpack", "multisink", "fanin", "splitline", "mesh"))
+    template = rng.choice([t for t in (templates or ()) if t != "twin"] or ("line", "line", "line", "diamond", "pack", "packunpack", "multisink", "fanin", "splitline", "mesh", "rework"))
     item_len = rng.choice((1, 1, 0.5))
     nodes, conns = [], []
 
@@ -235,6 +235,19 @@ def gen_spec(seed, profile="core", variant=None, templates=None):
                         conn(f"G{r_}{c_}", f"G{r_+1}{c_}")
             for c_ in range(cols):
                 conn(f"G{rows-1}{c_}", "K0")
+        elif template == "rework":
+            # a machine that sends part of its output back to its own input (rework loop): the same item visits the same
+            # node several times
+            src("S0")
+            machine("M0")
+            sink("K0")
+            conn("S0", "M0")
+            conn("M0", "M0")
+            conn("M0", "K0")
+            if rng.random() < 0.4:
+                machine("M1")
+                conn("M0", "M1")
+                conn("M1", "K0")
         elif template == "multisink":
             src("S0")
             machine("M0")
